@@ -186,6 +186,7 @@ func c12Run(c *engine.Ctx) {
 	// classification over moderate-magnitude floats within a few ulps of a T-junction: the
 	// near-collinear families of C10 (float-line lattice, mixed-magnitude collinear triples,
 	// segments through the coordinate origin)
+	sweepMixedScale(c, func(a, b, p [2]float64) { c12LeanT(c, a, b, p) })
 	if c.Thorough() {
 		sweepFloatLines(c, 128, func(a, b, p [2]float64) { c12LeanT(c, a, b, p) })
 		sweepMixed(c, 20, 200, func(a, b, p [2]float64) { c12LeanT(c, a, b, p) })
